@@ -168,9 +168,10 @@ impl Runtime {
             return;
         }
         if let Err(error) = self.do_input(string) {
+            // Either the staging area is not there (internal error) or the reply no
+            // longer fits on a nearly full stack (out of memory): report, don't crash.
             self.clear();
             self.state = State::RuntimeError(error);
-            debug_assert!(false, "BAD INPUT STACK");
         }
     }
 
